@@ -2,6 +2,8 @@ import Secp.Proofs.ScalarEnc
 import Secp.Proofs.Fermat
 import Secp.Proofs.ScalarApiTiesArith
 import Secp.Proofs.ScalarApiTiesTests
+import Secp.Proofs.ScalarCodecTies
+import Secp.Proofs.MiscTies
 /-!
 # C06 — scalar arithmetic is exact arithmetic modulo the group order
 
@@ -37,6 +39,25 @@ theorem set_nil (s : L4) : set s none = zero := rfl
 theorem invert_correct (s : L4) (hs : sOk s) : sOk (invert s) ∧ sVal (invert s) = (sVal s)⁻¹ := by
   obtain ⟨ok, v⟩ := scalarInvert_pow scalarLawful s hs
   exact ⟨ok, by rw [← zmod_pow_sub_two N (by decide) (sVal s)]; exact v⟩
+
+/-- **`Invert` regenerated from `scalar.go` and `internal/scalar` on this run**: `Scalar.Invert` calls `scalar.Invert(&s.S, s.S)`
+(the operand passed by value), which runs the regenerated addition chain on that copy; the chain's two operations are the
+regenerated wrappers `(*scalar).Multiply` / `Square`, i.e. Fiat's `Mul` / `Square`. It never panics and inverts -/
+theorem invert_regenerated (s : L4) (hs : sOk s) :
+    ∃ r, GenScalarCodec.scalar_invert Hand.Fn.scalarOps s = some r ∧ sOk r ∧ sVal r = (sVal s)⁻¹ :=
+  ⟨invert s, ScalarCodecTies.invert_tie s, invert_correct s hs⟩
+
+theorem invert_chain_ops_regenerated (s t u : L4) :
+    GenScalarBytes.scalar_multiply s t u = some (Hand.Fn.scalarOps.mul t u) ∧
+    GenScalarBytes.scalar_square s t = some (Hand.Fn.scalarOps.square t) := ScalarCodecTies.chain_ops_tie s t u
+
+/-- **`Pow` regenerated from `scalar.go` on this run** (nil test and `IsZero` in one condition, the `IsOne` shortcut, the three
+`big.Int` built from `Order()` and the two encodings, `Exp`, `Bytes`, the left-padding branch `if l := 32 - len(bytes); l > 0`,
+`Decode` and the panic on its error) never panics and is the model's `pow`; `math/big` is modelled (`SetBytes` = OS2IP,
+`Exp` = modular power, `Bytes` = minimal big-endian bytes). `Set` and `Copy` likewise -/
+theorem pow_regenerated (s : L4) (t : Option L4) :
+    GenMisc.scalar_pow s t = some (pow s t) ∧ GenMisc.scalar_set s t = some (set s t) ∧ GenMisc.scalar_copy s = some s :=
+  ⟨MiscTies.pow_tie s t, MiscTies.set_tie s t, MiscTies.copy_tie s⟩
 
 theorem invert_mul_cancel (s : L4) (hs : sOk s) (h : sVal s ≠ 0) : sVal s * sVal (invert s) = 1 := by
   rw [(invert_correct s hs).2]; exact mul_inv_cancel₀ h
